@@ -16,8 +16,14 @@ struct FisherX : public FisherLDA{
 	void stats(LabeledData<RealVector, unsigned int> const& data, RealVector& mean, RealMatrix& scatter){ call(*this, data, mean, scatter, 0); }
 };
 
+// objects that live as long as a history (`op ; op ; ...`)
+struct Session{
+	FisherX trainer; LinearModel<> model;
+	Session(): trainer(false, 0){}
+};
+
 // fisher whitening dims | table + class column
-static std::string opFisher(Args& A){
+static std::string opFisher(Args& A, Session* S){
 	std::size_t whitening = A.nat(), dims = A.nat();
 	Table T; if(!T.read(A, 1) || !A.done() || T.d == 0 || whitening > 1) return "bad-op";
 	std::size_t d = T.d, n = T.n;
@@ -32,14 +38,26 @@ static std::string opFisher(Args& A){
 	Out o;
 	LabeledData<RealVector, unsigned int> data = createLabeledDataFromRange(X, y, n);
 	data.repartition(T.sizes);
-	FisherX trainer(whitening == 1, dims);
-	LinearModel<> model; RealVector gmean(d); RealMatrix scatter(d, d);
+	FisherX freshTrainer(whitening == 1, dims);
+	LinearModel<> freshModel; RealVector freshMean(d); RealMatrix freshScatter(d, d);
+	// history: trainer (re-configured through its setters) and model are those of the previous step
+	FisherX& trainer = S ? S->trainer : freshTrainer;
+	LinearModel<>& model = S ? S->model : freshModel;
+	RealVector& gmean = freshMean; RealMatrix& scatter = freshScatter;
+	if(S){ trainer.setWhitening(whitening == 1); trainer.setSubspaceDimensions(dims); }
 	fpClear();
 	try{ trainer.stats(data, gmean, scatter); }catch(std::exception const&){ return "exc"; }
 	bool inexact = fpInexact();
 	try{ trainer.train(model, data); }catch(std::exception const&){ return "exc"; }
 	RealMatrix W = model.matrix(); RealVector b = model.offset();
 	o.vec("gmean", gmean); o.mat("W", W); o.vec("b", b);
+	if(S){
+		LinearModel<> m2; RealVector g2(d); RealMatrix s2(d, d);
+		try{ freshTrainer.stats(data, g2, s2); freshTrainer.train(m2, data);
+		     if(!sameVec(gmean, g2) || !sameMat(scatter, s2) || !sameMat(W, m2.matrix()) || !sameVec(b, m2.offset())) o.fail("reuse-dependent");
+		}catch(std::exception const&){ o.fail("reuse-dependent"); }
+		if(trainer.whitening() != (whitening == 1) || trainer.subspaceDimensions() != dims) o.fail("reuse-configuration");
+	}
 	// ---- oracle (plain loops)
 	std::vector<double> mu(d, 0.0); std::vector<std::vector<double> > mc(C, std::vector<double>(d, 0.0));
 	for(std::size_t i = 0; i < n; ++i) for(std::size_t j = 0; j < d; ++j){ mu[j] += T.rows[i][j]; mc[y[i]][j] += T.rows[i][j]; }
@@ -81,20 +99,22 @@ static std::string opFisher(Args& A){
 			if(!(res <= 1e-6 * (sc + 1e-300) || sc <= 1e-9 * (1 + trw) * wmax)) o.fail("fisher-direction-not-stationary");
 		}
 	}
+	// batch-partition independence
+	{ std::vector<std::vector<std::size_t> > parts = T.otherPartitions();
+	  for(std::size_t p = 0; p < parts.size(); ++p){
+		LabeledData<RealVector, unsigned int> other = createLabeledDataFromRange(X, y, n);
+		other.repartition(parts[p]);
+		LinearModel<> m2; RealVector g2(d); RealMatrix s2(d, d);
+		try{ freshTrainer.stats(other, g2, s2); freshTrainer.train(m2, other);
+		     if(!closeVec(gmean, g2, 1e-12) || (regular && (!closeMat(W, m2.matrix(), 1e-9) || !closeVec(b, m2.offset(), 1e-9)))) o.fail("batch-dependent");
+		}catch(std::exception const&){ o.fail("batch-dependent"); }
+	  } }
 	return o.line("ok", inexact);
 }
 
-int main(){
-	std::string line;
-	while(std::getline(std::cin, line)){
-		std::vector<std::string> t = vh::tokens(line);
-		if(t.empty()){ std::cout << "@ \n"; continue; }
-		Args A;
-		std::string res;
-		if(!allInt(t, 1, A.a)) res = "bad-op";
-		else if(t[0] == "fisher") res = opFisher(A);
-		else res = "bad-op";
-		std::cout << "@ " << res << std::endl;   // "@ " marks protocol lines (BLAS may print warnings to stdout)
-	}
-	return 0;
+static std::string dispatch(std::string const& op, Args& A, Session* S){
+	if(op == "fisher") return opFisher(A, S);
+	return "bad-op";
 }
+
+int main(){ return runProtocol<Session>(dispatch); }
